@@ -194,7 +194,7 @@ Lemma rs_update_wl c w t rr rs :
   rs_q c w (rs_update rs t rr w) /\ rs_eqv (rs_rollback (rs_update rs t rr w) w) (rs_rollback rs w).
 Proof.
   intros Hc H. unfold rs_update, rs_remove_rtype.
-  destruct ((rr =? 0) && update_empty_rrset_is_remove).
+  destruct (rrv_is_empty rr && update_empty_rrset_is_remove).
   - split; [apply rs_at_q|apply (rs_at_base c)]; auto using wl_remove.
   - split; [apply rs_at_q|apply (rs_at_base c)]; auto using wl_update.
 Qed.
